@@ -66,16 +66,18 @@ Proof.
   destruct (ref_header_line hc (Nat.eqb (length hs) 0) p l) as [x o r| |e]; cbn [agree_h] in H.
   - destruct H as [a [c' (Hm & Hrel & Hpos & Hrest & Htok)]]. rewrite Hm. cbn [stage].
     destruct Hadv as [k (Hk0 & Hk & -> & ->)].
-    destruct a as [| |name value]; cbn [hrel] in Hrel; subst x.
-    + rewrite Hpos. reflexivity.
-    + assert (Hc' : c' = mkcur (k + p) [] (skipn k l)).
-      { destruct c' as [p' t' l']. cbn [apos tokrev pre rest] in *. rewrite (Htok ltac:(discriminate)) in *.
-        cbn [length] in Hpos. subst. f_equal. }
+    destruct a as [| |name value]; cbn [hrel] in Hrel.
+    + subst x. rewrite Hpos. reflexivity.
+    + subst x. assert (Hc' : c' = mkcur (k + p) [] (skipn k l)).
+      { destruct c' as [p' t' l']. cbn [tokrev pre rest] in *.
+        assert (Ht : t' = []) by (apply Htok; discriminate). subst t' l'.
+        unfold apos in Hpos. cbn [tokrev pre length Nat.add] in Hpos. subst p'. reflexivity. }
       subst c'. apply IH; try (rewrite skipn_length; lia). apply bytes_ok_skipn. exact Hb.
     + destruct Hrel as [-> _].
       assert (Hc' : c' = mkcur (k + p) [] (skipn k l)).
-      { destruct c' as [p' t' l']. cbn [apos tokrev pre rest] in *. rewrite (Htok ltac:(discriminate)) in *.
-        cbn [length] in Hpos. subst. f_equal. }
+      { destruct c' as [p' t' l']. cbn [tokrev pre rest] in *.
+        assert (Ht : t' = []) by (apply Htok; discriminate). subst t' l'.
+        unfold apos in Hpos. cbn [tokrev pre length Nat.add] in Hpos. subst p'. reflexivity. }
       subst c'. rewrite write_slot_slots_of.
       destruct (Nat.ltb (length hs) (length arr0)); [|reflexivity].
       replace (S (length hs)) with (length (hs ++ [(name, trim_value value)])) by (rewrite app_length; cbn [length]; lia).
@@ -95,4 +97,164 @@ Proof.
   cbn [apos tokrev pre length Nat.add].
   apply (headers_loop_agree fuel (S (length l)) l p p [] arr); try lia; assumption.
 Qed.
+
+(* the reference never keeps more headers than the array holds, and Complete offsets grow *)
+Lemma ref_header_block_facts : forall f cap hs off l st hs',
+  ref_header_block hc f cap hs off l = (st, hs') ->
+  (length hs <= cap -> length hs' <= cap) /\
+  (forall o, st = Complete o -> off < o).
+Proof.
+  induction f as [|f IH]; intros cap hs off l st hs' H; cbn [ref_header_block] in H.
+  - injection H as <- <-. split; [auto|discriminate].
+  - pose proof (ref_header_line_adv hc (null hs) off l) as Hadv.
+    destruct (ref_header_line hc (null hs) off l) as [x o r| |e].
+    + destruct Hadv as [k (Hk0 & Hk & -> & ->)].
+      destruct x as [| |n v].
+      * injection H as <- <-. split; [auto|]. intros o [= <-]. lia.
+      * apply IH in H as [H1 H2]. split; [exact H1|]. intros o Ho. specialize (H2 o Ho). lia.
+      * destruct (Nat.ltb_spec (length hs) cap) as [Hlt|Hge].
+        -- apply IH in H as [H1 H2]. split.
+           ++ intros _. apply H1. rewrite app_length. cbn [length]. lia.
+           ++ intros o Ho. specialize (H2 o Ho). lia.
+        -- injection H as <- <-. split; [auto|discriminate].
+    + injection H as <- <-. split; [auto|discriminate].
+    + injection H as <- <-. split; [auto|discriminate].
+Qed.
 End WithEnv.
+
+Lemma firstn_slots_of hs arr :
+  firstn (length hs) (slots_of hs arr) = map (fun h => SWritten (fst h) (snd h)) hs.
+Proof.
+  unfold slots_of.
+  replace (length hs) with (length (map (fun h : sl * sl => SWritten (fst h) (snd h)) hs) + 0)
+    by (rewrite map_length; lia).
+  rewrite firstn_app_2. cbn [firstn]. apply app_nil_r.
+Qed.
+
+Definition pick {A} (new old : option A) : option A :=
+  match new with Some x => Some x | None => old end.
+
+Definition written_of (hs : list (sl * sl)) : list slot := map (fun h => SWritten (fst h) (snd h)) hs.
+
+(* what a request call leaves behind, as a function of the reference result *)
+Definition req_result (rq : request) (arr : list slot) (r : ref_req) : status * request * list slot :=
+  let st := rq_start r in
+  (rq_status r,
+   mkreq (pick (rs_method st) (q_method rq)) (pick (rs_path st) (q_path rq))
+         (pick (rs_version st) (q_version rq))
+         (match rq_status r with Complete _ => written_of (rq_headers r) | _ => q_hdrs rq end),
+   slots_of (rq_headers r) arr).
+
+Definition resp_result (rp : response) (arr : list slot) (r : ref_resp) : status * response * list slot :=
+  let st := rp_start r in
+  (rp_status r,
+   mkresp (pick (rs_pversion st) (p_version rp)) (pick (rs_code st) (p_code rp))
+          (pick (rs_reason st) (p_reason rp))
+          (match rp_status r with Complete _ => written_of (rp_headers r) | _ => p_hdrs rp end),
+   slots_of (rp_headers r) arr).
+
+Section Top.
+Variable E : env.
+Hypothesis HE : env_ok E.
+
+Lemma good_skipn buf k : bytes_ok buf -> bytes_ok (skipn k buf) /\ length (skipn k buf) < S (length buf).
+Proof. intros H. split; [apply bytes_ok_skipn; exact H|rewrite skipn_length; lia]. Qed.
+
+(* the header part shared by requests and responses *)
+Lemma headers_part : forall hc buf k o arr,
+  bytes_ok buf ->
+  parse_headers_iter_uninit E (S (length buf)) hc arr (mkcur o [] (skipn k buf))
+  = (let (st, hs) := ref_headers hc (length arr) o (skipn k buf) in
+     (shift_status o st, length hs, slots_of hs arr)).
+Proof.
+  intros hc buf k o arr Hb. destruct (good_skipn buf k Hb) as [H1 H2].
+  apply headers_iter_agree; assumption.
+Qed.
+
+Theorem parse_headers_ref : forall src dst, bytes_ok src ->
+  parse_headers E src dst =
+  (let (st, hs) := ref_headers hcfg_default (length dst) 0 src in
+   (st, match st with Complete _ => written_of hs | _ => [] end, slots_of hs dst)).
+Proof.
+  intros src dst Hb. unfold parse_headers, cur_new.
+  pose proof (headers_part hcfg_default src 0 0 dst Hb) as H. cbn [skipn] in H. rewrite H.
+  destruct (ref_headers hcfg_default (length dst) 0 src) as [st hs].
+  destruct st as [o| | |]; cbn [shift_status]; try reflexivity.
+  rewrite Nat.sub_0_r, firstn_slots_of. reflexivity.
+Qed.
+
+Theorem request_core_ref : forall cf buf rq arr, bytes_ok buf ->
+  request_core E cf buf rq arr = req_result rq arr (ref_request cf (length arr) buf).
+Proof.
+  intros cf buf rq arr Hb. unfold request_core, ref_request, ref_request_line, req_result.
+  set (fuel := S (length buf)). set (ms := allow_multiple_spaces_in_request_line_delimiters cf).
+  (* leading empty lines *)
+  pose proof (skip_empty_lines_agree fuel buf [] 0 ltac:(unfold fuel; lia)) as H1.
+  pose proof (ref_empty_lines_adv (length buf) buf 0 (le_n _)) as A1. cbn [length Nat.add] in H1.
+  unfold bind at 1. unfold skip_empty_lines, cur_new.
+  destruct (ref_empty_lines 0 buf) as [u1 o1 l1| |e1]; cbn [agree] in H1; rewrite H1; cbn [stage];
+    [|destruct rq; reflexivity|destruct rq; reflexivity].
+  destruct A1 as [k1 (Hk1 & -> & ->)]. destruct (good_skipn buf k1 Hb) as [Hb1 Hl1].
+  (* method *)
+  pose proof (parse_method_agree E HE fuel _ (k1 + 0) Hl1 Hb1) as H2.
+  pose proof (ref_method_adv (k1 + 0) (skipn k1 buf)) as A2.
+  destruct (ref_method (k1 + 0) (skipn k1 buf)) as [m o2 l2| |e2]; cbn [agree] in H2; rewrite H2; cbn [stage];
+    [|destruct rq; reflexivity|destruct rq; reflexivity].
+  destruct A2 as [k2 (_ & Hk2 & -> & ->)]. rewrite skipn_add. rewrite skipn_length in Hk2.
+  destruct (good_skipn buf (k1 + k2) Hb) as [Hb2 Hl2].
+  (* spaces, target *)
+  assert (H3 : agree (((if ms then skip_spaces fuel else ret tt);;; parse_uri E fuel)
+                        (mkcur (k2 + (k1 + 0)) [] (skipn (k1 + k2) buf)))
+                     (rbind (ref_spaces ms (k2 + (k1 + 0)) (skipn (k1 + k2) buf)) (fun _ o l => ref_target o l))).
+  { unfold bind. pose proof (ref_spaces_adv ms (k2 + (k1 + 0)) (skipn (k1 + k2) buf)) as A.
+    destruct ms.
+    - pose proof (skip_spaces_agree fuel _ [] (k2 + (k1 + 0)) Hl2) as Hs. cbn [length Nat.add] in Hs.
+      unfold skip_spaces.
+      destruct (ref_spaces true _ _) as [u o l| |e]; cbn [agree rbind] in *; rewrite Hs; [|reflexivity|reflexivity].
+      destruct A as [k (Hk & -> & ->)]. rewrite skipn_add.
+      destruct (good_skipn buf (k1 + k2 + k) Hb) as [Hb' Hl'].
+      apply parse_uri_agree; assumption.
+    - cbn [ref_spaces rbind]. unfold ret. apply parse_uri_agree; assumption. }
+  assert (A3 : advances0 (k2 + (k1 + 0)) (skipn (k1 + k2) buf)
+                 (rbind (ref_spaces ms (k2 + (k1 + 0)) (skipn (k1 + k2) buf)) (fun _ o l => ref_target o l))).
+  { apply rbind_adv0; [apply ref_spaces_adv|]. intros a o r _. apply advances_weaken. apply ref_target_adv. }
+  destruct (rbind (ref_spaces ms _ _) _) as [pth o3 l3| |e3]; cbn [agree] in H3; rewrite H3; cbn [stage];
+    [|destruct rq; reflexivity|destruct rq; reflexivity].
+  destruct A3 as [k3 (Hk3 & -> & ->)]. rewrite skipn_add.
+  destruct (good_skipn buf (k1 + k2 + k3) Hb) as [Hb3 Hl3].
+  (* spaces, version *)
+  assert (H4 : agree_nc (((if ms then skip_spaces fuel else ret tt);;; parse_version)
+                        (mkcur (k3 + (k2 + (k1 + 0))) [] (skipn (k1 + k2 + k3) buf)))
+                     (rbind (ref_spaces ms (k3 + (k2 + (k1 + 0))) (skipn (k1 + k2 + k3) buf)) (fun _ o l => ref_version o l))).
+  { unfold bind.
+    destruct ms.
+    - pose proof (skip_spaces_agree fuel _ [] (k3 + (k2 + (k1 + 0))) Hl3) as Hs. cbn [length Nat.add] in Hs.
+      unfold skip_spaces.
+      destruct (ref_spaces true _ _) as [u o l| |e]; cbn [agree agree_nc rbind] in *; rewrite Hs; [|reflexivity|reflexivity].
+      apply (parse_version_agree (mkcur o [] l)).
+    - cbn [ref_spaces rbind]. unfold ret. apply (parse_version_agree (mkcur _ [] _)). }
+  assert (A4 : advances0 (k3 + (k2 + (k1 + 0))) (skipn (k1 + k2 + k3) buf)
+                 (rbind (ref_spaces ms (k3 + (k2 + (k1 + 0))) (skipn (k1 + k2 + k3) buf)) (fun _ o l => ref_version o l))).
+  { apply rbind_adv0; [apply ref_spaces_adv|]. intros a o r _. apply advances_weaken. apply ref_version_adv. }
+  destruct (rbind (ref_spaces ms _ _) (fun _ o l => ref_version o l)) as [v o4 l4| |e4]; cbn [agree_nc] in H4;
+    [|rewrite H4; cbn [stage]; destruct rq; reflexivity|rewrite H4; cbn [stage]; destruct rq; reflexivity].
+  destruct H4 as [c4 (H4 & Hp4 & Hr4)]. rewrite H4. cbn [stage].
+  destruct A4 as [k4 (Hk4 & -> & ->)]. rewrite skipn_add in Hr4.
+  (* newline *)
+  pose proof (newline_agree c4) as H5. rewrite Hp4, Hr4 in H5.
+  pose proof (ref_eol_adv NewLine (k4 + (k3 + (k2 + (k1 + 0)))) (skipn (k1 + k2 + k3 + k4) buf)) as A5.
+  rewrite skipn_add.
+  destruct (ref_eol NewLine _ _) as [u5 o5 l5| |e5]; cbn [agree] in H5; rewrite H5; cbn [stage];
+    [|destruct rq; reflexivity|destruct rq; reflexivity].
+  destruct A5 as [k5 (_ & Hk5 & -> & ->)]. rewrite skipn_add.
+  (* headers *)
+  rewrite (headers_part (request_hcfg cf) buf _ _ arr Hb). cbn [apos tokrev pre length Nat.add].
+  destruct (ref_headers (request_hcfg cf) (length arr) _ _) as [st hs] eqn:Eh.
+  unfold ref_headers in Eh. apply ref_header_block_facts in Eh as [_ Hmono].
+  destruct st as [o| |e|f]; cbn [shift_status rq_status rq_start rq_headers rs_method rs_path rs_version pick q_method q_path q_version q_hdrs];
+    try (destruct rq; reflexivity).
+  specialize (Hmono o eq_refl). rewrite firstn_slots_of.
+  replace (k5 + (k4 + (k3 + (k2 + (k1 + 0)))) + (o - (k5 + (k4 + (k3 + (k2 + (k1 + 0))))))) with o by lia.
+  destruct rq; reflexivity.
+Qed.
+End Top.
